@@ -1,1 +1,69 @@
-From TL Require Import Base.Base.
+(* C19 - Contexts are isolated and deterministic; load equals evaluate.      *)
+(* Statements only; the proofs are in Proofs/Contexts.v.                      *)
+From TL Require Import Base.Base Model.Reader Model.Printer Model.Store Model.Eval Model.Init.
+From TL Require Import Proofs.Contexts.
+
+(* a world is a list of contexts, a request (i, text) runs in context i.     *)
+(* A request changes no other context.                                        *)
+Theorem C19_step_isolated : forall F fuel w q j,
+  j <> fst q -> nth_error (fst (wstep F fuel w q)) j = nth_error w j.
+Proof. exact step_isolated. Qed.
+
+(* For EVERY interleaving of requests over any number of contexts, the        *)
+(* answers of context i and its final state (all variables, functions, hash   *)
+(* tables, counters) are exactly those of running its own requests alone.     *)
+Theorem C19_isolation : forall F fuel qs w i s, nth_error w i = Some s ->
+  let '(w', os) := wrun F fuel w qs in
+  let '(s', rs) := crun F fuel s (mine i qs) in
+  nth_error w' i = Some s' /\ outs_of i os = rs.
+Proof. exact isolation. Qed.
+
+(* evaluate-file = evaluate-string of the file's contents, in a state that    *)
+(* differs only in the table of file names (the reported name); a missing      *)
+(* file is an error that changes nothing                                       *)
+Theorem C19_eval_file_is_eval_string : forall F fuel name body s,
+  find (fun p => text_eqb (fst p) name) (files s) = Some (name, body) ->
+  eval_file F fuel name s = eval_string F fuel body (bump_files s).
+Proof. exact eval_file_is_eval_string. Qed.
+Theorem C19_eval_file_missing : forall F fuel name s,
+  find (fun p => text_eqb (fst p) name) (files s) = None ->
+  eval_file F fuel name s = (Err EUndef, s).
+Proof. exact eval_file_missing. Qed.
+
+(* (load NAME) inside a program, hence also a nested load: evaluate the name, *)
+(* then evaluate the contents as a string                                      *)
+Theorem C19_load_is_eval_string : forall F f name s,
+  apply_prim F (run F f) (run_body F (run F f)) PLoad (Cons (Str name) Nil) s =
+  match run F f (TEval (Str name)) s with
+  | (Ok (Str n), s0) =>
+      match find (fun p => text_eqb (fst p) n) (files s0) with
+      | Some p => eval_string F f (snd p) (bump_files s0)
+      | None => (Err EUndef, s0)
+      end
+  | (Ok _, s0) => (Err EType, s0)
+  | (Err e, s0) => (Err e, s0) | (Panic n, s0) => (Panic n, s0) | (Fuel, s0) => (Fuel, s0)
+  end.
+Proof. exact load_is_eval_string. Qed.
+
+Print Assumptions C19_step_isolated. Print Assumptions C19_isolation.
+Print Assumptions C19_eval_file_is_eval_string. Print Assumptions C19_eval_file_missing.
+Print Assumptions C19_load_is_eval_string.
+
+(* non-vacuity: a nested load gives what evaluating the contents gives *)
+Definition F0 : fops :=
+  {| f_add := fun _ _ => 0%Z; f_sub := fun _ _ => 0%Z; f_mul := fun _ _ => 0%Z;
+     f_div := fun _ _ => 0%Z; f_rem := fun _ _ => 0%Z; f_pow := fun _ _ => 0%Z;
+     f_max := fun _ _ => 0%Z; f_min := fun _ _ => 0%Z; f_of_int := fun z => z;
+     f_to_int := fun z => z; f_round := fun z => z; f_trunc := fun z => z;
+     f_lt := Z.ltb; f_le := Z.leb; f_eq := Z.eqb; f_is_finite := fun _ => true;
+     f_to_dec := fun _ => []; f_of_dec := fun _ => None |}.
+Definition fs0 := [(s2t "a.el", s2t "(setq x 1) (load ""b.el"") (+ x y)"); (s2t "b.el", s2t "(setq y 41)")].
+Example C19_ex :
+  fst (eval_file F0 60 (s2t "a.el") (init_state fs0 None)) = Ok (Int 42) /\
+  fst (eval_string F0 60 (s2t "(setq x 1) (setq y 41) (+ x y)") (init_state fs0 None)) = Ok (Int 42).
+Proof. vm_compute. split; reflexivity. Qed.
+
+Check C19_isolation : forall F fuel qs w i s, nth_error w i = Some s ->
+  let '(w', os) := wrun F fuel w qs in
+  let '(s', rs) := crun F fuel s (mine i qs) in
+  nth_error w' i = Some s' /\ outs_of i os = rs.
